@@ -783,8 +783,19 @@ def redirects(ck):
     # -- which responses are followed
     rets = [n for n in q.walk_body(sfr.node) if isinstance(n, ast.Return) and n.value is not None and not isinstance(n.value, ast.Constant)]
     ck.floor("C09.redirect-follow-table", len(rets), 1, "non-constant returns in _should_follow_redirect")
+    # `return E` yields E; `return v` of a result variable that is only bound by plain `v = E` assignments yields every
+    # non-constant E, where it is assigned (single exit with a result variable instead of early returns)
+    yields = []
     for r in rets:
-        rv = expand_expr(ck.repo, sfr, r.value)
+        if isinstance(r.value, ast.Name):
+            sts = q.stores_to(sfr.node, r.value.id)
+            if len(sts) > 1 and all(isinstance(s_, ast.Assign) and len(s_.targets) == 1 and isinstance(s_.targets[0], ast.Name) and not any(isinstance(x, ast.Name) and x.id == r.value.id for x in ast.walk(s_.value)) for s_ in sts):
+                yields.extend((s_, s_.value) for s_ in sts if not isinstance(s_.value, ast.Constant))
+                continue
+        yields.append((r, r.value))
+    ck.floor("C09.redirect-follow-table", len(yields), 1, "non-constant results of _should_follow_redirect")
+    for r, rval in yields:
+        rv = expand_expr(ck.repo, sfr, rval)
         codes = set()
         folded = 0
         for c in range(100, 600):
@@ -1191,7 +1202,7 @@ def run(ck):
     ck.rule("C09.strip-delete-effective", "HTTPHeaders.__delitem__ raises KeyError only for absent names (no KeyError-fallible operation before the removal from the authoritative store), so a swallowed KeyError cannot leave a credential header behind")
     from ..x_inline import inline_repo
 
-    ck.repo = inline_repo(ck.repo, [SH, HC], KEEP_CLIENT)
+    ck.repo = inline_repo(ck.repo, [SH, HC], KEEP_CLIENT, join_index=True)
     admission(ck)
     completion(ck)
     redirects(ck)
